@@ -62,6 +62,10 @@ func PrepareC04(ctx *Ctx) (*Prepared, error) {
 	p := &Prepared{Targets: map[string]*ReplayTarget{}, ExpectReach: map[string][]string{}, NotAnalysable: map[string]string{}}
 	kinds := map[string]map[string]string{}
 	jo := JobOptions{LoopBudget: 4096, AllocLimit: 1 << 16, TimeoutMs: 20000, EnumCap: 64, CheckRewrites: true, Witnesses: 2, FuncBudgetS: 120}
+	if ctx.Tier == "thorough" {
+		jo.FuncBudgetS = 1800
+	}
+	hints := loadHints(ctx)
 	for i, pr := range pairs {
 		if res[2*i].Err != "" || res[2*i+1].Err != "" {
 			p.NotAnalysable[pr.Name+" ("+pr.Shape+")"] = "generator: " + res[2*i].Err + " " + res[2*i+1].Err
@@ -72,12 +76,23 @@ func PrepareC04(ctx *Ctx) (*Prepared, error) {
 		km := pr.V2.Kinds()
 		kinds[pr.Name] = km
 		kinds[pr.Name+"a"] = pr.V1.Kinds()
-		j := &Job{Name: pr.Name + " " + pr.Shape, Dir: mod, Patterns: []string{"./" + pr.Name}, Funcs: []string{"corp/" + pr.Name + ".VH_C04"}, Opt: jo,
-			Meta: map[string]string{"evolution": pr.Kind, "context": pr.Context}}
-		p.Jobs = append(p.Jobs, j)
-		p.ExpectReach[j.Name] = []string{"c04"}
+		for _, h := range []string{"VH_C04", "VH_C04B", "VH_C04C"} {
+			j := &Job{Name: pr.Name + " " + pr.Shape + " " + h, Dir: mod, Patterns: []string{"./" + pr.Name}, Funcs: []string{"corp/" + pr.Name + "." + h}, Opt: jo,
+				Meta: map[string]string{"evolution": pr.Kind, "context": pr.Context}}
+			n := shardCount(hints.cost(ctx, j.Funcs[0]))
+			for i := 0; i < n; i++ {
+				sj := *j
+				if n > 1 {
+					sj.Name += fmt.Sprintf(" #%d/%d", i, n)
+					sj.Opt.ShardN, sj.Opt.ShardI, sj.Opt.ShardDepth = n, i, shardDepth
+				}
+				p.Jobs = append(p.Jobs, &sj)
+				p.ExpectReach[sj.Name] = []string{"c04"}
+			}
+		}
 		p.Targets["corp/"+pr.Name] = &ReplayTarget{ModDir: mod, PkgPath: "corp/" + pr.Name, PkgDir: dir, PkgName: pr.Name, Vstub: "vh/vstub"}
 	}
+	p.CostKey = func(fn string) string { return fn } // pair names are stable
 	norm := codecNormalize(kinds)
 	p.Normalize = func(j *Job, pkg string, v *interp.Violation) Sig {
 		s := norm(j, pkg, v)
